@@ -373,7 +373,10 @@ pub fn run(cases: &[Value], trace: &mut Trace, _seed: u64) {
             s.hold_enabled = false;
         }
         let (a, b) = UnixStream::pair().unwrap();
+        let adup = a.try_clone().unwrap();
         let bdup = b.try_clone().unwrap();
+        // temporary receive conditions (EAGAIN / EINTR) met by the first attempts to read an answer during the schedule
+        let recvfault: Vec<i32> = case["recvfault"].as_array().map(|x| x.iter().map(|v| v.as_i64().unwrap_or(0) as i32).collect()).unwrap_or_default();
         let peer = spawn_peer(ep_name, b, ctl.clone());
         let any_ack = kinds.iter().any(|k| k == "ack");
         let ep = match ep_name {
@@ -406,6 +409,9 @@ pub fn run(cases: &[Value], trace: &mut Trace, _seed: u64) {
             s.hold_enabled = !free;
         }
         trace.emit(json!({"ev": "reset", "id": case["id"], "ep": ep_name, "kinds": kinds, "free": free}));
+        if !recvfault.is_empty() {
+            crate::eng_sender::arm_recv(&adup, &recvfault);
+        }
         FORCE_HANDOVER.store(!free, std::sync::atomic::Ordering::SeqCst);
         KTIDS.lock().unwrap().clear();
         let cpu = (std::process::id() as usize + case_no) % ncpu;
@@ -535,6 +541,10 @@ pub fn run(cases: &[Value], trace: &mut Trace, _seed: u64) {
         for h in handles {
             let _ = h.join();
         }
+        if !recvfault.is_empty() {
+            crate::eng_sender::disarm_recv();
+        }
+        drop(adup);
         drop(ep);
         let _ = bdup.shutdown(std::net::Shutdown::Both);
         let _ = peer.join();
